@@ -169,7 +169,7 @@ class TranslateNode(Node, TranslatableTag):
         message_context: Optional[str],
     ) -> str:
         """Get translated text from the given translations object."""
-        if self.plural_block and count:
+        if self.plural_block and count is not None:
             if message_context:
                 return translations.npgettext(
                     message_context,
